@@ -142,7 +142,39 @@ def bfsw_net(rng, pp):
     return net
 
 
+def add_hvdc(rng, pp, net):
+    """a bipolar HVDC interconnection with four back-to-back VSCs in a separate 380 kV part with its own ext_grids (the net of
+    the library's own b2b test): every power flow converts each b2b_vsc into two temporary rows of net.vsc"""
+    b = [pp.create_bus(net, 380.) for _ in range(8)]
+    pp.create_ext_grid(net, b[0], vm_pu=1.0)
+    pp.create_ext_grid(net, b[1], vm_pu=1.0)
+    for f, t in ((0, 2), (1, 3), (4, 6), (5, 7)):
+        pp.create_line_from_parameters(net, b[f], b[t], 1, 0.0487, 0.13823, 160, 0.664)
+    pp.create_load(net, b[6], rng.choice([100., 60.]))
+    pp.create_load(net, b[7], rng.choice([150., 80.]))
+    d = [pp.create_bus_dc(net, 380.) for _ in range(6)]
+    pp.create_line_dc_from_parameters(net, d[0], d[3], length_km=100, r_ohm_per_km=0.0212, max_i_ka=0.963)
+    pp.create_line_dc_from_parameters(net, d[2], d[5], length_km=100, r_ohm_per_km=0.0212, max_i_ka=0.963)
+    pp.create_line_dc_from_parameters(net, d[1], d[4], length_km=100, r_ohm_per_km=0.0212, max_i_ka=0.963, in_service=False)
+    pp.create_b2b_vsc(net, b[2], d[0], d[1], 0.2, 10, 0.3, control_mode_ac='vm_pu', control_value_ac=1, control_mode_dc="vm_pu", control_value_dc=1.)
+    pp.create_b2b_vsc(net, b[3], d[1], d[2], 0.2, 10, 0.3, control_mode_ac='vm_pu', control_value_ac=1, control_mode_dc="vm_pu", control_value_dc=1.)
+    pp.create_b2b_vsc(net, b[4], d[3], d[4], 0.2, 10, 0.3, control_mode_ac='slack', control_value_ac=1, control_mode_dc="p_mw", control_value_dc=1.5)
+    pp.create_b2b_vsc(net, b[5], d[4], d[5], 0.2, 10, 0.3, control_mode_ac='slack', control_value_ac=1, control_mode_dc="p_mw", control_value_dc=0.5)
+    if rng.random() < 0.5:
+        # a user's own VSC rows must survive the removal of the temporary ones
+        pp.create_vsc(net, b[2], d[0], 0.1, 5., 0.15, control_mode_ac="vm_pu", control_value_ac=1., control_mode_dc="vm_pu", control_value_dc=1.,
+                      in_service=False, name="user vsc")
+
+
 def calc_net(rng, pp, name):
+    net = _calc_net(rng, pp, name)
+    if name in ("runpp", "rundcpp", "runopp", "contingency"):
+        if rng.random() < 0.4:
+            add_hvdc(rng, pp, net)
+    return net
+
+
+def _calc_net(rng, pp, name):
     if name == "runpp_bfsw_pv":
         return bfsw_net(rng, pp)
     if name.startswith("calc_sc") or name == "runpp_3ph":
